@@ -386,6 +386,29 @@ def worker(job):
                     st.violate("print-not-byte-exact", None,
                                {"mode": mode, "root": spelling, "problem": bad,
                                 "missing": [p for p in exp if p not in got][:5], "unexpected": [p for p in got if p not in exp][:5]}, rp)
+            # (b2) the same tree reached through a symbolic link given as the starting point, followed because of -H (or -L), in
+            # depth-first order with -mindepth 1: every record below the link, spelled through it, and nothing else
+            if rng.random() < 0.3:
+                real = spelling.rstrip("/") if not spelling.startswith("/") else spelling
+                real = real[2:] if real.startswith("./") else real
+                os.symlink(real, os.path.join(sb, "lnk"))
+                sp_b = os.fsencode(spelling)
+                want_l = [b"lnk/" + p_[len(sp_b):].lstrip(b"/") for p_ in exp[1:]]
+                fl = rng.choice(["-H", "-H", "-L"])
+                md = rng.choice([1, 1, 2])
+                if md == 2:
+                    want_l = [p_ for p_ in want_l if p_.count(b"/") >= 2]
+                args = [common.FIND, fl, "lnk", "-depth", "-mindepth", str(md), "-print0"]
+                rc, out, err, to = common.run_cmd(args, cwd=sb, env=env, timeout=60)
+                os.unlink(os.path.join(sb, "lnk"))
+                st.inc("evaluations")
+                st.inc("find_runs")
+                st.inc("runs_through_a_followed_link_starting_point_depth_first")
+                if rc != 0 or collections.Counter(out.split(b"\0")[:-1]) != collections.Counter(want_l) or (out and not out.endswith(b"\0")):
+                    got = out.split(b"\0")[:-1]
+                    st.violate("print-not-byte-exact", None,
+                               {"mode": " ".join(args[1:]), "root": "lnk -> " + real, "problem": "multiset of printed paths differs from the spec (exit %r)" % rc,
+                                "missing": [p_ for p_ in want_l if p_ not in got][:5], "unexpected": [p_ for p_ in got if p_ not in want_l][:5]}, rp)
             # (c) the pipe into xargs -0
             log = os.path.join(sb, "rec.log")
             env2 = common.clean_env({"VERIF_REC_LOG": log})
